@@ -221,7 +221,7 @@ def run_job(job):
         # ---- thorough: random triples from the pool
         if tier == "thorough":
             small = [None, b"", b"x", "DEF", L255, L256]
-            for k in range(1500):
+            for k in range(6000):
                 reg = (rnd.choice(small[:3] + small[4:]), rnd.choice(small[:3] + small[4:]))
                 srv = (rnd.choice([reg[0], reg[0], rnd.choice(small)]), rnd.choice([reg[1], reg[1], rnd.choice(small)]), rnd.choice([None, b"", b"x", L256]))
                 cli = (rnd.choice([srv[0], srv[0], rnd.choice(small)]), rnd.choice([srv[1], srv[1], rnd.choice(small)]), rnd.choice([srv[2], srv[2], b"y"]))
